@@ -93,9 +93,17 @@ impl Case {
         }
     }
     pub fn json_with(&self, prop: &str, px: &[[f32; 3]], w: usize, h: usize) -> Value {
+        if px.len() > 4096 {
+            if let Px::Seeded { stratum, seed } = &self.px {
+                return json!({"prop": prop, "w": w, "h": h, "seeded": {"stratum": stratum, "seed": seed.to_string()}});
+            }
+        }
         json!({"prop": prop, "w": w, "h": h, "pixels": px.iter().map(|p| px2j(*p)).collect::<Vec<_>>()})
     }
     pub fn from_json(v: &Value) -> Option<Case> {
+        if let Some(sd) = v.get("seeded") {
+            return Some(Case { w: v.get("w")?.as_u64()? as usize, h: v.get("h")?.as_u64()? as usize, px: Px::Seeded { stratum: sd.get("stratum")?.as_u64()? as u8, seed: sd.get("seed")?.as_str()?.parse().ok()? } });
+        }
         let px: Vec<[f32; 3]> = v.get("pixels")?.as_array()?.iter().filter_map(j2px).collect();
         Some(Case { w: v.get("w")?.as_u64()? as usize, h: v.get("h")?.as_u64()? as usize, px: Px::Explicit(px) })
     }
@@ -289,12 +297,41 @@ fn lattice(ctx: &Ctx, st: &mut Stats, side: usize, hi: f64, chk: fn(&Case, &mut 
     })
 }
 
+/// real-size images (see gen::LARGE_SIZES)
+fn large_images(ctx: &Ctx, st: &mut Stats, chk: fn(&Case, &mut Stats) -> Result<(), Violation>) -> Vec<Violation> {
+    let sizes: Vec<(usize, usize)> = if ctx.light { vec![(257, 255), (521, 511)] } else if ctx.quick() { crate::gen::LARGE_SIZES[..8].to_vec() } else { crate::gen::LARGE_SIZES.to_vec() };
+    let seed0 = ctx.seed;
+    par_sweep(ctx, st, sizes.len() as u64 * 3, |lo, hi, st| {
+        for j in lo..hi {
+            let (w, h) = sizes[(j / 3) as usize];
+            let case = Case { w, h, px: Px::Seeded { stratum: [0u8, 8, 5][(j % 3) as usize], seed: mix64(seed0 ^ (j << 8) ^ 0x1A46E) } };
+            let mut local = Stats::new();
+            local.sample_budget = 0;
+            if let Err(v) = chk(&case, &mut local) {
+                return Some(v);
+            }
+            st.evaluations += 1;
+            st.comparisons += (w * h) as u64;
+            st.nontrivial_by_construction += 1;
+            st.class("large_images", 1);
+            for (k, v) in local.maxima {
+                st.max(&k, v);
+            }
+        }
+        None
+    })
+}
+
 pub fn run_c04(ctx: &Ctx, st: &mut Stats) -> Vec<Violation> {
     let mut v = run_proptest(ctx, st, "random", ctx.cases(100_000, 10_000_000), strategy, check_c04);
     if !v.is_empty() {
         return v;
     }
     v.extend(lattice(ctx, st, if ctx.light { 32 } else { ctx.pick(96, 320) }, 4.0, check_c04));
+    if !v.is_empty() {
+        return v;
+    }
+    v.extend(large_images(ctx, st, check_c04));
     v
 }
 pub fn run_c05(ctx: &Ctx, st: &mut Stats) -> Vec<Violation> {
@@ -303,6 +340,10 @@ pub fn run_c05(ctx: &Ctx, st: &mut Stats) -> Vec<Violation> {
         return v;
     }
     v.extend(lattice(ctx, st, if ctx.light { 48 } else { ctx.pick(128, 512) }, 1.0, check_c05));
+    if !v.is_empty() {
+        return v;
+    }
+    v.extend(large_images(ctx, st, check_c05));
     v
 }
 
@@ -313,5 +354,5 @@ pub fn replay_c05(v: &Value) -> Result<(), String> {
     check_c05(&Case::from_json(v).ok_or("bad case")?, &mut Stats::new()).map_err(|v| v.message)
 }
 
-pub const RULE_C04: &str = "cases = w x h images (1..40 x 1..12, so pixel counts of every residue) of linear-RGB pixels from 9 strata, a third of the images with related neighbours (equal / partly equal / fed-back pixels), single-pixel and tiny images over-represented (uniform [0,4]^3, near-neutral, near black with log-uniform scale 1e-9..1e-1, greys, single channel, [-1,4]^3 with a negative component, unit cube, R close to G, lattice corners) generated by proptest, plus an enumerated lattice on [0,4]^3; every in-domain pixel compared with the f64 opsin definition (tol 2e-6); negative pixels whose opsin mixes fall in (-1e-3, 0.05) are converted but not compared (outside the stated domain) and counted; non-trivial = image containing a non-grey pixel; distinct = by hash of (w,h,pixel bits)";
-pub const RULE_C05: &str = "cases = w x h images (1..40 x 1..12) of linear-RGB pixels of [0,1]^3 from 9 strata, a third of the images with related neighbours (equal / partly equal / fed-back pixels), single-pixel and tiny images over-represented (uniform, near-neutral (grey + perturbations of scale 1e-7..1e-3), near black, greys, single channel, R close to G with |R-G| log-uniform 1e-7..1e-2, lattice corners) generated by proptest, plus an enumerated lattice on [0,1]^3; oracle = LinearRgb -> Xyb -> LinearRgb returns every component within 5e-5, dimensions preserved; non-trivial = image containing a non-grey pixel; distinct = by hash of (w,h,pixel bits)";
+pub const RULE_C04: &str = "cases = w x h images (1..40 x 1..12, so pixel counts of every residue) of linear-RGB pixels from 9 strata, a third of the images with related neighbours (equal / partly equal / fed-back pixels), single-pixel and tiny images over-represented (uniform [0,4]^3, near-neutral, near black with log-uniform scale 1e-9..1e-1, greys, single channel, [-1,4]^3 with a negative component, unit cube, R close to G, lattice corners) generated by proptest, plus an enumerated lattice on [0,4]^3 and real-size images (32768 .. 2 M pixels); every in-domain pixel compared with the f64 opsin definition (tol 2e-6); negative pixels whose opsin mixes fall in (-1e-3, 0.05) are converted but not compared (outside the stated domain) and counted; non-trivial = image containing a non-grey pixel; distinct = by hash of (w,h,pixel bits)";
+pub const RULE_C05: &str = "cases = w x h images (1..40 x 1..12) of linear-RGB pixels of [0,1]^3 from 9 strata, a third of the images with related neighbours (equal / partly equal / fed-back pixels), single-pixel and tiny images over-represented (uniform, near-neutral (grey + perturbations of scale 1e-7..1e-3), near black, greys, single channel, R close to G with |R-G| log-uniform 1e-7..1e-2, lattice corners) generated by proptest, plus an enumerated lattice on [0,1]^3 and real-size images (32768 .. 2 M pixels); oracle = LinearRgb -> Xyb -> LinearRgb returns every component within 5e-5, dimensions preserved; non-trivial = image containing a non-grey pixel; distinct = by hash of (w,h,pixel bits)";
